@@ -23,8 +23,37 @@ struct Block {
     size: usize,
     align: usize,
     tracked: bool,
+    arena: bool, // allocated from the low-memory arena (never returned to the system)
 }
-static mut BLOCKS: [Block; TBL] = [Block { ptr: 0, size: 0, align: 0, tracked: false }; TBL];
+static mut BLOCKS: [Block; TBL] = [Block { ptr: 0, size: 0, align: 0, tracked: false, arena: false }; TBL];
+
+/// Low-memory arena (GENRUN_LOWMEM=1): tracked blocks are carved out of a region mapped below 2^32 (mmap MAP_32BIT), so
+/// that generated code which squeezes a pointer through an i32 core value (`XBorrow::lift(arg as u32 as usize)`, right on
+/// wasm32) also works natively.  Bump allocation, no reuse (freed blocks stay poisoned).
+pub static mut LOWMEM: bool = false;
+static mut ARENA_BASE: usize = 0;
+static mut ARENA_NEXT: usize = 0;
+const ARENA_SIZE: usize = 1 << 28;
+unsafe fn arena_alloc(size: usize, align: usize) -> *mut u8 {
+    unsafe {
+        if ARENA_BASE == 0 {
+            let ret: isize;
+            core::arch::asm!("syscall", inlateout("rax") 9isize => ret, in("rdi") 0usize, in("rsi") ARENA_SIZE, in("rdx") 3usize,
+                in("r10") 0x22usize | 0x40 | 0x4000, in("r8") -1isize, in("r9") 0usize, lateout("rcx") _, lateout("r11") _, options(nostack));
+            if ret < 0 || (ret as usize) + ARENA_SIZE > (1usize << 32) {
+                return core::ptr::null_mut();
+            }
+            ARENA_BASE = ret as usize;
+            ARENA_NEXT = ARENA_BASE;
+        }
+        let p = (ARENA_NEXT + align - 1) & !(align - 1);
+        if p + size > ARENA_BASE + ARENA_SIZE {
+            return core::ptr::null_mut();
+        }
+        ARENA_NEXT = p + size;
+        p as *mut u8
+    }
+}
 static mut NBLOCKS: usize = 0;
 pub static mut TRACK: bool = false;
 pub static mut REDZONE: bool = true;
@@ -121,7 +150,15 @@ unsafe impl GlobalAlloc for TrackAlloc {
         unsafe {
             let r = rz(layout.align());
             let inner = Layout::from_size_align_unchecked(layout.size() + 2 * r, layout.align());
-            let base = System.alloc(inner);
+            let mut arena = false;
+            let mut base = core::ptr::null_mut();
+            if LOWMEM && TRACK {
+                base = arena_alloc(inner.size(), inner.align());
+                arena = !base.is_null();
+            }
+            if base.is_null() {
+                base = System.alloc(inner);
+            }
             if base.is_null() {
                 return base;
             }
@@ -134,7 +171,7 @@ unsafe impl GlobalAlloc for TrackAlloc {
                 *p.add(i) = 0xA5;
             }
             let tracked = TRACK;
-            if !tbl_insert(Block { ptr: p as usize, size: layout.size(), align: layout.align(), tracked }) {
+            if !tbl_insert(Block { ptr: p as usize, size: layout.size(), align: layout.align(), tracked, arena }) {
                 ev(b'E', p as usize, layout.size(), layout.align(), E_TABLE_FULL);
             }
             if tracked {
@@ -173,7 +210,9 @@ unsafe impl GlobalAlloc for TrackAlloc {
                     for k in 0..b.size {
                         *p.add(k) = 0xDD;
                     }
-                    System.dealloc(base, Layout::from_size_align_unchecked(b.size + 2 * r, b.align));
+                    if !b.arena {
+                        System.dealloc(base, Layout::from_size_align_unchecked(b.size + 2 * r, b.align));
+                    }
                 }
             }
         }
@@ -606,7 +645,13 @@ pub fn host_import(module: &'static str, name: &'static str, args: &[u64]) -> u6
             CALLS.push_str(&a.to_string());
         }
         let mut ret = 0u64;
-        if name.starts_with("[resource-") {
+        let hooked = match IMPORT_HOOK {
+            Some(h) if !name.starts_with("[resource-") => h(module, name, args),
+            _ => None,
+        };
+        if let Some(r) = hooked {
+            ret = r;
+        } else if name.starts_with("[resource-") {
             ret = crate::rt::resource_intrinsic(module, name, args);
         } else {
             match EXPECT.as_mut() {
@@ -633,31 +678,195 @@ pub fn host_import(module: &'static str, name: &'static str, args: &[u64]) -> u6
     }
 }
 
-// ------------------------------------------------------------------------------------------ resources (mock handle table; C07)
-pub static mut RES_NEXT: u32 = 1;
+// ------------------------------------------------------------------------------------------ resources: the host's handle table (C07)
+/// A second transcription (the first is Core/ResourceOwn.v) of the Component Model handle table of one component
+/// instance: entries {kind, rep, own, lends}, indices from 1 with LIFO reuse of freed indices, canon resource.new /
+/// resource.rep / resource.drop, lift_own / lift_borrow / lower_own / lower_borrow, "every borrow handle lent to a call
+/// must be dropped before it returns".  Violations are logged as `trap:<rule>` events, never raised.
+#[derive(Clone, Copy)]
+pub struct HEntry {
+    pub kind: u8, // 0 = imported resource, 1 = exported resource (implemented by this guest)
+    pub rep: u64,
+    pub own: bool,
+    pub lends: u32,
+}
+pub static mut HT: Vec<Option<HEntry>> = Vec::new();
+pub static mut HT_FREE: Vec<u32> = Vec::new();
+pub static mut NEED_DROP: u32 = 0;
+pub static mut BOXES: Vec<u64> = Vec::new(); // rep pointers of exported-resource boxes in creation order (#k)
+pub static mut HEV: Vec<String> = Vec::new(); // event log of the host table and of the guest's value lifecycle
+pub static mut DTOR: Option<unsafe fn(*mut u8)> = None; // the exported destructor (registered by the module)
+pub static mut IMPORT_HOOK: Option<fn(&str, &str, &[u64]) -> Option<u64>> = None;
+
+pub fn hev(s: String) {
+    unsafe {
+        let t = TRACK;
+        TRACK = false;
+        HEV.push(s);
+        TRACK = t;
+    }
+}
+pub fn box_index(rep: u64) -> String {
+    unsafe {
+        match BOXES.iter().position(|b| *b == rep) {
+            Some(k) => format!("#{k}"),
+            None => format!("?{rep}"),
+        }
+    }
+}
+pub fn ht_add(e: HEntry) -> u32 {
+    unsafe {
+        let t = TRACK;
+        TRACK = false;
+        if HT.is_empty() {
+            HT.push(None);
+        }
+        let i = match HT_FREE.pop() {
+            Some(i) => {
+                HT[i as usize] = Some(e);
+                i
+            }
+            None => {
+                HT.push(Some(e));
+                (HT.len() - 1) as u32
+            }
+        };
+        HEV.push(format!("newh:{}:{}", i, e.own as u8));
+        TRACK = t;
+        i
+    }
+}
+pub fn ht_get(i: u32) -> Option<HEntry> {
+    unsafe { HT.get(i as usize).copied().flatten() }
+}
+fn ht_remove(i: u32) {
+    unsafe {
+        let t = TRACK;
+        TRACK = false;
+        HT[i as usize] = None;
+        HT_FREE.push(i);
+        TRACK = t;
+    }
+}
+/// the host runs the exported destructor on a box
+pub fn host_dtor(rep: u64) {
+    hev(format!("dtor:{}", box_index(rep)));
+    unsafe {
+        match DTOR {
+            Some(f) => {
+                let t = TRACK;
+                TRACK = true;
+                f(rep as usize as *mut u8);
+                TRACK = t;
+            }
+            None => hev("trap:no-dtor-registered".to_string()),
+        }
+    }
+}
+/// lift_own: the host takes an own handle out of the guest's table (own<T> argument of an import / result of an export)
+pub fn ht_lift_own(i: u32) -> u64 {
+    match ht_get(i) {
+        None => {
+            hev(format!("trap:lift-own-absent:{i}"));
+            0
+        }
+        Some(e) => {
+            if !e.own {
+                hev(format!("trap:lift-own-of-borrow:{i}"));
+                return 0;
+            }
+            if e.lends != 0 {
+                hev(format!("trap:lift-own-while-lent:{i}"));
+                return 0;
+            }
+            ht_remove(i);
+            hev(format!("took:{}:{}", i, if e.kind == 1 { box_index(e.rep) } else { e.rep.to_string() }));
+            e.rep
+        }
+    }
+}
+/// lift_borrow for the duration of an import call (lend count +1 … -1: net zero, logged)
+pub fn ht_lift_borrow(i: u32) -> u64 {
+    match ht_get(i) {
+        None => {
+            hev(format!("trap:lift-borrow-absent:{i}"));
+            0
+        }
+        Some(e) => {
+            hev(format!("lend:{i}"));
+            e.rep
+        }
+    }
+}
 pub fn resource_intrinsic(_module: &str, name: &str, args: &[u64]) -> u64 {
-    // [resource-drop]r: logged in CALLS (the host side keeps the table); [resource-new]r: handle := fresh index,
-    // the rep pointer is remembered; [resource-rep]r: returns the rep
     unsafe {
         if name.starts_with("[resource-new]") {
-            let h = RES_NEXT;
-            RES_NEXT += 1;
-            REPS.push((h, args[0]));
-            return h as u64;
+            let t = TRACK;
+            TRACK = false;
+            BOXES.push(args[0]);
+            TRACK = t;
+            return ht_add(HEntry { kind: 1, rep: args[0], own: true, lends: 0 }) as u64;
         }
         if name.starts_with("[resource-rep]") {
-            for (h, r) in REPS.iter() {
-                if *h as u64 == args[0] {
-                    return *r;
+            return match ht_get(args[0] as u32) {
+                Some(e) => e.rep,
+                None => {
+                    hev(format!("trap:rep-absent:{}", args[0]));
+                    0
+                }
+            };
+        }
+        if name.starts_with("[resource-drop]") {
+            let i = args[0] as u32;
+            match ht_get(i) {
+                None => hev(format!("trap:drop-absent:{i}")),
+                Some(e) => {
+                    if e.lends != 0 {
+                        hev(format!("trap:drop-while-lent:{i}"));
+                    } else {
+                        hev(format!("drop:{}:{}", i, e.own as u8));
+                        ht_remove(i);
+                        if e.own {
+                            if e.kind == 1 {
+                                host_dtor(e.rep);
+                            }
+                        } else if NEED_DROP == 0 {
+                            hev("trap:need-drop-underflow".to_string());
+                        } else {
+                            NEED_DROP -= 1;
+                        }
+                    }
                 }
             }
-            note("resource-rep-of-unknown-handle");
             return 0;
         }
         0
     }
 }
-pub static mut REPS: Vec<(u32, u64)> = Vec::new();
+fn ht_dump() -> String {
+    unsafe {
+        let mut v = Vec::new();
+        for (i, e) in HT.iter().enumerate() {
+            if let Some(e) = e {
+                v.push(format!("{}:{}:{}:{}", i, e.kind, e.own as u8, if e.kind == 1 { box_index(e.rep) } else { e.rep.to_string() }));
+            }
+        }
+        let mut bx = Vec::new();
+        for (k, b) in BOXES.iter().enumerate() {
+            if tbl_find(*b as usize).is_some() {
+                bx.push(format!("#{k}"));
+            }
+        }
+        format!("tbl={} need={} free={} boxes={}", v.join(","), NEED_DROP, HT_FREE.iter().rev().map(|x| x.to_string()).collect::<Vec<_>>().join(","), bx.join(","))
+    }
+}
+fn take_hev() -> String {
+    unsafe {
+        let s = HEV.join(",");
+        HEV.clear();
+        s
+    }
+}
 
 // ------------------------------------------------------------------------------------------ protocol
 pub struct Module {
@@ -668,6 +877,8 @@ pub struct Module {
     pub post: fn(usize, u64),
     /// build the arguments of import k from the script, call the wrapper, log the result, drop everything
     pub import: fn(usize),
+    /// one-time initialisation (registers hooks); may be a no-op
+    pub init: fn(),
 }
 
 fn parse_words(s: &str) -> Vec<u64> {
@@ -700,15 +911,27 @@ pub fn main_loop(modules: &[Module]) {
         CALLS.reserve(1 << 20);
         SNAP.reserve(1 << 24);
         ARENA.reserve(1 << 16);
-        REPS.reserve(1 << 12);
+        HT.reserve(1 << 12);
+        HT_FREE.reserve(1 << 12);
+        BOXES.reserve(1 << 12);
+        HEV.reserve(1 << 14);
         if std::env::var("GENRUN_NO_REDZONE").is_ok() {
             REDZONE = false;
+        }
+        if std::env::var("GENRUN_LOWMEM").is_ok() {
+            LOWMEM = true;
         }
     }
     let stdin = std::io::stdin();
     let stdout = std::io::stdout();
     let mut out = stdout.lock();
-    let find = |m: &str| modules.iter().find(|x| x.name == m);
+    let find = |m: &str| {
+        let r = modules.iter().find(|x| x.name == m);
+        if let Some(x) = r {
+            (x.init)();
+        }
+        r
+    };
     for line in stdin.lock().lines() {
         let line = line.unwrap();
         let f: Vec<&str> = line.split(' ').collect();
@@ -824,6 +1047,44 @@ pub fn main_loop(modules: &[Module]) {
                         if used { "" } else { "import-not-called;" }, if under { "script-not-consumed;" } else { "" }, live_str(), unsafe { SNAP.clone() })
                 }
             },
+            // HT ADD <kind> <own> <rep|#k>  |  HT LIFTOWN <h>  |  HT ENDCALL  |  HT DTOR <#k>  |  HT DUMP  |  HT BOXPTR <#k>
+            "HT" => {
+                let rep_of = |t: &str| -> u64 {
+                    if let Some(k) = t.strip_prefix('#') { unsafe { BOXES[k.parse::<usize>().unwrap()] } } else { t.parse().unwrap() }
+                };
+                match f[1] {
+                    "ADD" => {
+                        let own = f[3] == "1";
+                        if !own {
+                            unsafe { NEED_DROP += 1 };
+                        }
+                        let h = ht_add(HEntry { kind: f[2].parse().unwrap(), own, rep: rep_of(f[4]), lends: 0 });
+                        format!("OK {h}")
+                    }
+                    "LIFTOWN" => {
+                        ht_lift_own(f[2].parse().unwrap());
+                        "OK".to_string()
+                    }
+                    "ENDCALL" => {
+                        unsafe {
+                            if NEED_DROP != 0 {
+                                hev(format!("trap:borrow-outstanding-at-return:{}", NEED_DROP));
+                                NEED_DROP = 0;
+                            }
+                        }
+                        "OK".to_string()
+                    }
+                    "DTOR" => {
+                        take_events();
+                        host_dtor(rep_of(f[2]));
+                        check_redzones();
+                        format!("OK ev={}", take_events())
+                    }
+                    "BOXPTR" => format!("OK {}", rep_of(f[2])),
+                    "DUMP" => format!("OK {} hev={} live={}", ht_dump(), take_hev(), live_str()),
+                    _ => "ERR bad-ht-command".to_string(),
+                }
+            }
             "QUIT" => break,
             _ => "ERR bad-command".to_string(),
         };
